@@ -244,6 +244,70 @@ fn test_conn(c: &ConnCase) -> TestResult {
 }
 
 // ---------------------------------------------------------------------------------------------
+// (a') connections on which the client aborts requests: the shutdown future and "nothing new
+// starts" only (what the log must contain for aborted requests is C11's business)
+
+fn test_aborted(c: &ConnCase) -> TestResult {
+    let b = conn::build(c);
+    let r0 = conn::run_conn(c, &b, IoFault::None, |_, _| None)?;
+    if r0.end != RunEnd::Finished {
+        // no reference: C11 / C07 judge whether such a connection must finish
+        return Ok(Outcome::new(false).label("clean-run-does-not-finish"));
+    }
+    let total = r0.steps;
+    let pts: Vec<usize> = if total <= 400 { (0..=total + 1).collect() } else { (0..200).chain((200..total).step_by(total / 200)).chain(total - 5..=total + 1).collect() };
+    let mut runs = 0u64;
+    let mut after_abort = false;
+    for k in pts {
+        heartbeat();
+        let ctx = format!("[shutdown requested before poll #{k}]");
+        let r = run_with_shutdown(c, &b, k).map_err(|f| Fail::new(f.sig, format!("{ctx} {}", f.msg)))?;
+        let w = r.world.lock().unwrap();
+        match r.end {
+            RunEnd::Finished => {},
+            RunEnd::Idle => vfail!("c14-not-stopped", "{ctx} the connection task stays suspended after shutdown was requested (invocations {}, log {} bytes, client bytes read {}/{})", r.invocations.len(), w.log.len(), w.read_pos, w.client.len()),
+            RunEnd::StepLimit => vfail!("conn-spin", "{ctx} task still running after {} polls", r.steps),
+        }
+        if r.task_finished_at_request {
+            vensure!(r.first_poll_ready, "c14-future-pending-without-tokens", "{ctx} all tokens were already dropped but the shutdown future is pending");
+        } else {
+            vensure!(!r.first_poll_ready, "c14-future-ready-early", "{ctx} the shutdown future completed while the connection's token was alive (Token::run had not returned; {} request(s) handled so far)", r.inv_at);
+            vensure!(r.woken_after_finish, "c14-waiter-not-woken", "{ctx} the last token was dropped but the task polling the shutdown future was not woken");
+        }
+        vensure!(r.final_poll_ready, "c14-future-pending-without-tokens", "{ctx} the shutdown future is still pending after the last token was dropped");
+        for (i, inv) in r.invocations.iter().enumerate() {
+            vensure!(inv.started_at_step < k, "c14-handler-started-after-shutdown", "{ctx} handler invocation #{i} began in poll #{} of the connection task", inv.started_at_step);
+        }
+        after_abort |= !r.task_finished_at_request && r.invocations[..r.inv_at].iter().any(|i| i.read_errors.iter().any(|(_, k)| *k == std::io::ErrorKind::ConnectionAborted));
+        runs += 1;
+    }
+    let mut o = Outcome::new(after_abort).label_if(after_abort, "shutdown-after-a-handler-saw-its-request-aborted").label_if(r0.invocations.len() >= 2, "multi-request-script");
+    o.extra_evals = runs;
+    Ok(o)
+}
+
+fn aborted_strategy() -> BoxedStrategy<ConnCase> {
+    let abort = (any::<u16>(), prop_oneof![3 => Just(0u16), 1 => 1u16..=24], prop_oneof![3 => Just(0u8), 1 => any::<u8>()]).prop_map(|(after, body_len, pad)| conn::AbortSpec { after, body_len, pad });
+    (conn_strategy(), proptest::collection::vec((prop::option::weighted(0.6, abort), any::<u8>()), 3))
+        .prop_map(|(mut c, aborts)| {
+            for (q, (a, bias)) in c.reqs.iter_mut().zip(aborts) {
+                if a.is_some() {
+                    if bias % 5 < 4 {
+                        q.handler.insert(0, HOp::ReadToEnd { cap: 1 + (bias as u16 % 200) });
+                    }
+                    if bias % 6 != 0 {
+                        q.pre.flags |= 1;
+                    }
+                    c.propagate |= bias % 4 != 0;
+                }
+                q.abort = a;
+            }
+            c
+        })
+        .boxed()
+}
+
+// ---------------------------------------------------------------------------------------------
 // (b) wait-group windows forced through the hook
 
 #[derive(Clone, Debug, Serialize, Deserialize, PartialEq, Eq, Hash)]
@@ -657,6 +721,14 @@ pub fn property() -> Property {
                 4_000,
                 |_| pipelined_strategy(),
                 test_conn,
+            ),
+            prop_sub(
+                "aborted_connections",
+                "connection scripts in which the client aborts 60 % of the requests (during Params or a stream, handlers mostly reading and propagating the error, mostly keep-alive so that further requests follow) x shutdown requested before every poll of the task: the task finishes, no handler invocation begins after the request, the shutdown future is pending at the request iff Token::run has not returned, its waiter is woken by the last drop and it is ready afterwards (log contents of aborted requests are C11's business); non-trivial = shutdown requested after a handler saw ConnectionAborted while the task was still running; distinct = hash of the script",
+                150,
+                4_000,
+                |_| aborted_strategy(),
+                test_aborted,
             ),
             prop_sub(
                 "several_connections",
